@@ -376,9 +376,34 @@ def install(ex):
         if c.endswith("Entry::or_insert") or c.endswith("Entry::or_default"):
             m, k = a[0].fields[0].fields; kr = key_repr(k)
             if kr not in m.d:
-                if c.endswith("or_default"): raise Unsupported("or_default")
-                m.d[kr] = [k, a[1]]
+                if c.endswith("or_default"):
+                    mv = re.search(r"Entry::<'?\w*,? ?(.*)>::or_default$", callee)      # Entry::<'_, K, V>::or_default: the default of V
+                    vty = mv.group(1) if mv else ""
+                    d = 0; cut = 0
+                    for i_, ch in enumerate(vty):          # V is the last top-level generic argument
+                        if ch in "<([": d += 1
+                        elif ch in ">)]": d -= 1
+                        elif ch == "," and d == 0: cut = i_ + 1
+                    vty = vty[cut:].strip()
+                    if vty.startswith("Vec<"): dv = VecV([])
+                    elif vty in ("usize", "i64", "i32", "u32", "isize"): dv = 0
+                    elif vty in ("std::string::String", "String"): dv = ""
+                    elif vty.startswith(("BTreeSet<", "HashSet<", "std::collections::BTreeSet<", "std::collections::HashSet<")): dv = SetV()
+                    elif vty.startswith(("BTreeMap<", "HashMap<", "std::collections::BTreeMap<", "std::collections::HashMap<")): dv = MapV("btree" if "BTreeMap" in vty else "hash")
+                    else: raise Unsupported("or_default for value type %r (%s)" % (vty, callee))
+                    m.d[kr] = [k, dv]
+                else: m.d[kr] = [k, a[1]]
             return Ref(m.d[kr], 1)
+        mri = re.match(r"^<(\[.*\]|Vec<.*>) as (std::ops::)?Index<(std::ops::)?(Range|RangeTo|RangeToInclusive|RangeFrom|RangeFull|RangeInclusive)(<usize>)?>>::index$", c)
+        if mri:
+            base = deref(a[0]); lst = base.items if isinstance(base, VecV) else base
+            r = deref(a[1]); kind = mri.group(4); n = len(lst)
+            f = {nm: deref(v) for nm, v in zip({"Range": ["start", "end"], "RangeTo": ["end"], "RangeToInclusive": ["end"], "RangeFrom": ["start"], "RangeFull": [], "RangeInclusive": ["start", "end", "exhausted"]}[kind], r.fields)}
+            lo = f.get("start", 0); hi = f.get("end", n)
+            if kind in ("RangeToInclusive", "RangeInclusive"): hi = hi + 1
+            if not (isinstance(lo, int) and isinstance(hi, int)): raise Unsupported("symbolic slice bounds")
+            if lo > hi or hi > n: raise Panic("slice index out of range")
+            return lst[lo:hi]
         if c.endswith("OccupiedEntry::get_mut") or c.endswith("OccupiedEntry::into_mut"):
             e_ = deref(a[0]); m, k = e_.fields; return Ref(m.d[key_repr(k)], 1)
         if c.endswith("OccupiedEntry::insert"):
